@@ -443,6 +443,8 @@ fn spawn_async_ao_list_in_task'''),
         ('length-not-clipped', 'brush-core/src/expansion.rs', 'min(expanded_length, expanded_parameter_len - expanded_offset);', 'expanded_length;'),
     ],
     'U8': [
+        ('array-literal-index-overflows-again', 'brush-core/src/variables.rs', "            new_key = new_key.wrapping_add(1);", "            new_key += 1;"),
+        ('index-after-the-largest-overflows-again', 'brush-core/src/variables.rs', "            largest_index.wrapping_add(1)", "            largest_index + 1"),
         ('subscript-relative-to-max-key-not-past-it', 'brush-core/src/variables.rs', 'Some((max_key, _)) => max_key.wrapping_add(1),', 'Some((max_key, _)) => *max_key,'),
         ('negative-subscript-never-errors', 'brush-core/src/variables.rs', '''        if index_value < 0 {
             return Err(error::ErrorKind::ArrayIndexOutOfRange(index_str.to_owned()).into());
@@ -907,6 +909,7 @@ fn spawn_async_ao_list_in_task'''),
         ('unknown-job-spec-drops-the-newest-job', 'brush-builtins/src/wait.rs', "                        result = ExecutionExitCode::GeneralError.into();\n", "                        context.shell.jobs_mut().jobs.pop();\n                        result = ExecutionExitCode::GeneralError.into();\n"),
     ],
     'U37': [
+        ('io-number-unwrapped-again', 'brush-parser/src/parser/peg.rs', "                w.parse().or(Err(\"io number\"))", "                Ok(w.parse().unwrap())"),
         ('tilde-index-unwrapped-again', 'brush-parser/src/word.rs', 'TildeExpr::NthDirFromTopOfDirStack { n: n.parse().or(Err("directory stack index"))?, plus_used', 'TildeExpr::NthDirFromTopOfDirStack { n: n.parse().unwrap(), plus_used'),
         ('positional-index-unwrapped', 'brush-parser/src/word.rs', "n:$(['1'..='9'](['0'..='9']*)) {? n.parse().or(Err(\"u32\")) }", "n:$(['1'..='9'](['0'..='9']*)) { n.parse().unwrap() }"),
     ],
